@@ -67,19 +67,15 @@ Qed.
 Definition key_rt (kn : node) (k : val) : Prop :=
   exists t, render_key kn k = KT t /\ conv_key kn t = Some (named_key k).
 
-(* an entry is handed over as itself: its key is == to itself and occurs once *)
-Definition entry_ok (kn vn : node) (all : list (val * val)) (kv : val * val) : Prop :=
-  key_rt kn (fst kv) /\ handed kn vn all kv = snd kv.
-
-Lemma rounds_map sc ins kn vn all : forall kvs i, Forall (entry_ok kn vn all) kvs ->
-  exists tr, rounds sc ins (map_items kn vn all kvs) i = inl tr /\
+Lemma rounds_map sc ins kn : forall kvs i, Forall (fun kv => key_rt kn (fst kv)) kvs ->
+  exists tr, rounds sc ins (map_items kn kvs) i = inl tr /\
              abstract (map_kabs kn) tr = spec_rounds sc ins i (entry_items kvs).
 Proof.
   induction kvs as [|[k e] r IH]; intros i KR.
   - exists []. split; reflexivity.
-  - inversion KR as [|? ? K1 Kr]; subst. destruct K1 as ((t & RK & CK) & HD). cbn [fst snd] in RK, CK, HD.
+  - inversion KR as [|? ? K1 Kr]; subst. destruct K1 as (t & RK & CK). cbn [fst snd] in RK, CK.
     destruct (IH (S i) Kr) as (tr & R & A).
-    unfold map_items, entry_items in *. cbn [map fst snd rounds spec_rounds]. rewrite RK, HD.
+    unfold map_items, entry_items in *. cbn [map fst snd rounds spec_rounds]. rewrite RK.
     unfold spec_round.
     destruct (wants sc i) eqn:WK; destruct (ctls sc i) eqn:CT; rewrite ?R;
       eexists; (split; [reflexivity|]); rewrite ?abstract_app, <- ?A;
@@ -93,7 +89,7 @@ Lemma denoted_dem n v path : denoted n v path = dem (nav n v path).
 Proof. reflexivity. Qed.
 
 Definition keys_ok (d : ldemand) : Prop :=
-  match d with LMap kn vn kvs => Forall (entry_ok kn vn kvs) kvs | _ => True end.
+  match d with LMap kn _ kvs => Forall (fun kv => key_rt kn (fst kv)) kvs | _ => True end.
 
 (* body outcomes: a fall-through is a return without error *)
 Definition acc (sc : script) (ord : list (val * val) -> list (val * val)) (o : out trace) (d : ldemand) : Prop :=
@@ -294,9 +290,9 @@ Proof.
       + destruct (len_rest_nil _ _ SK LE) as (R1 & _). rewrite R1.
         cbn [nav dem] in *. unfold coll_of in *. cbn [cur_of n_ptr n_typ n_mapk n_mapv] in *.
         cbn [acc keys_ok] in *.
-        assert (KO' : Forall (entry_ok kn vn kvs) (ord kvs)).
+        assert (KO' : Forall (fun kv => key_rt kn (fst kv)) (ord kvs)).
         { eapply Permutation_Forall; [apply Permutation_sym; apply ORD|exact KO]. }
-        destruct (rounds_map sc (elem_ins vn) kn vn kvs (ord kvs) 0 KO') as (tr & R & A).
+        destruct (rounds_map sc (elem_ins vn) kn (ord kvs) 0 KO') as (tr & R & A).
         rewrite R. cbn [finish_rounds]. exists tr. split; auto.
       + destruct (len_rest_cons _ _ _ _ SK) as (R1 & R2 & R4 & R5). rewrite R1, R2.
         cbn [nav] in *.
